@@ -86,6 +86,13 @@ CHILD = textwrap.dedent('''
             yield r
         if fail_at is not None and fail_at == -1 - 0 and False:
             raise RuntimeError('injected')
+    stop_at = fail_at[1] if isinstance(fail_at, (list, tuple)) and fail_at[0] == 'stop' else None
+    def stopper(rows):
+        # a step placed after the checkpoint that stops reading each resource after stop_at rows
+        for i, r in enumerate(rows):
+            if stop_at is not None and i >= stop_at:
+                break
+            yield r
     def tail(package):
         yield package.pkg
         yield from package
@@ -99,7 +106,7 @@ CHILD = textwrap.dedent('''
             srcs = []
             for i, rows in enumerate(pkg):
                 srcs.append((failing_source(rows) if i == 0 and src_at is not None else rows) if rows else [])
-            flow = Flow(*[s for s in srcs if True], up, tail, checkpoint('c', checkpoint_path=%(dir)r), down) if pkg else Flow(up, tail, checkpoint('c', checkpoint_path=%(dir)r))
+            flow = Flow(*[s for s in srcs if True], up, tail, checkpoint('c', checkpoint_path=%(dir)r), down, stopper) if pkg else Flow(up, tail, checkpoint('c', checkpoint_path=%(dir)r))
             if retry_at is not None:
                 # the same Flow object is run again after a failed first attempt (a retry loop)
                 try:
@@ -203,13 +210,15 @@ def run_impl(case):
         rc2, again, err2 = child(pkg, d)
         r = {'at': fa, 'raised': bool(o and 'error' in o), 'final_exists': exists, 'rerun': (again or {}).get('res'),
              'rerun_error': (again or {}).get('error')}
+        if isinstance(fa, list) and fa[0] == 'stop':
+            r['stop'] = {'error': (o or {}).get('error'), 'first': (o or {}).get('res')}
         if isinstance(fa, list) and fa[0] in ('retry', 'retry2'):
             r['retry'] = {'first': (o or {}).get('first'), 'second': (o or {}).get('res'), 'error': (o or {}).get('error')}
         return r
     with ThreadPoolExecutor(max_workers=12) as ex:
         if case['kind'] == 'crash':
             # steps before the checkpoint at every row and at exhaustion; a step after it at every row
-            points = list(range(nrows)) + ['end'] + [['down', k] for k in range(nrows)] + [['retry', k] for k in range(nrows)] + [['retry2', k] for k in range(1, nrows)]
+            points = list(range(nrows)) + ['end'] + [['down', k] for k in range(nrows)] + [['retry', k] for k in range(nrows)] + [['retry2', k] for k in range(1, nrows)] + [['stop', k] for k in (0, 1)]
         else:
             points = case['points']
         out['fails'] = list(ex.map(one_fail, points))
@@ -232,6 +241,14 @@ def oracle(case, out):
         if kk['final_exists'] and kk['k'] < n - 1:
             return 'killed before file operation #%d of %d: stream.ndjson already exists' % (kk['k'], n)
     for ff in out['fails']:
+        if 'stop' in ff:
+            # a later step stopped reading early: the run succeeds, and the checkpoint it leaves must be the complete data
+            if ff['stop']['error']:
+                return 'a later step that stops reading after %d rows made the run fail: %s' % (ff['at'][1], ff['stop']['error'])
+            if not ff['final_exists'] or ff['rerun_error'] or ff['rerun'] != out['clean']:
+                return 'a later step stopped reading each resource after %d rows: the checkpoint that run left does not hold the complete data (next run: %s)' % (
+                    ff['at'][1], ff['rerun_error'] or [len(x) for x in (ff['rerun'] or [])])
+            continue
         if 'retry' in ff:
             rt = ff['retry']
             if rt['error'] or rt['first'] != 'raised':
